@@ -1,4 +1,5 @@
 import Hostd.Drive.Txn
 open Hostd
-def main : IO Unit := do
-  Proto.loop (← IO.getStdin) ({} : Drive.Txn.DState) Drive.Txn.step Drive.Txn.stats
+def main (args : List String) : IO Unit := do
+  let init : Drive.Txn.DState := { fixed := Drive.Txn.parseArgs args }
+  Proto.loop (← IO.getStdin) init Drive.Txn.step Drive.Txn.stats
